@@ -115,13 +115,12 @@ class _SymCtxH(symrun.SymCtx):
 def discharge(path, hyps, post, timeout):
     """ring normal form first (polynomial identities), then SMT per conjunct"""
     t0 = time.time()
-    if ringnf.prove_equalities(post, [(c, s) for (_, c, s) in path.trig], path.assume + path.pc):
+    if ringnf.prove_equalities(post, [(c, s) for (_, c, s) in path.trig], hyps):
         return "unsat", None, "ring-nf", time.time() - t0
     conj = ringnf._conjuncts(post)
     backends = set()
     for cj in conj:
-        if len(conj) > 1 and ringnf.prove_equalities(cj, [(c, s) for (_, c, s) in path.trig],
-                                                     path.assume + path.pc):
+        if len(conj) > 1 and ringnf.prove_equalities(cj, [(c, s) for (_, c, s) in path.trig], hyps):
             backends.add("ring-nf")
             continue
         st, model, backend, _ = symrun.solve(hyps + [z3.Not(cj)], timeout_s=timeout)
@@ -190,6 +189,7 @@ def run_job(args):
         if not path.obls:
             continue
         hyps = path.facts + path.assume + path.pc
+        hbase = path.facts + path.pc
         # vacuity guard: the hypotheses of this path must not be contradictory
         info["canaries"] += 1
         st, _, _, _ = symrun.solve(hyps, timeout_s=5)
@@ -200,8 +200,24 @@ def run_job(args):
         if st == "sat":
             info["covers"] += 1
         feasible_with_obls += 1
-        for (name, post, fns) in path.obls:
-            st, model, backend, dt = discharge(path, hyps, post, c.timeout)
+        for oi, (name, post, nass, using) in enumerate(path.obls):
+            if using is None:
+                hy = hbase + path.assume[:nass]
+            elif oi in path.gen:
+                sub = []
+                for k, t in enumerate(path.gen[oi]):
+                    g = z3.Real("gen!%d!%d" % (oi, k))
+                    sub.append((t, g))
+                    ts = z3.simplify(t)       # function applications hold simplified arguments
+                    if not ts.eq(t):
+                        sub.append((ts, g))
+                fs = [z3.substitute(f, *sub) for f in path.facts]
+                us = [z3.substitute(f, *sub) for f in using]
+                post = z3.substitute(post, *sub)
+                hy = symrun.relevant_facts(fs, us + [post], None) + us
+            else:
+                hy = symrun.relevant_facts(path.facts, using + [post], path) + using
+            st, model, backend, dt = discharge(path, hy, post, c.timeout)
             ent = per_name.setdefault(name, {"status": DISCHARGED, "t": 0.0, "backends": set(),
                                              "detail": "", "witness": None, "n": 0})
             ent["t"] += dt
